@@ -18,7 +18,7 @@ fn gen_atom(r: &mut Rng, depth: usize, out: &mut Vec<String>) {
         }
         out.push(")".to_string());
     } else {
-        let pool = ["true", "false", "0", "no", "NO", "False", "yes", "1", "x", "", " ", " false", "no ", " 0 ", "\tfalse", "fa lse", "00", "off", "FALSE", "OR", "And", "AND", "Or", "oR", "aNd", "nO", "ors", "andy", "not"];
+        let pool = ["true", "false", "0", "no", "NO", "False", "yes", "1", "x", "", " ", " false", "no ", " 0 ", "\tfalse", "fa lse", "00", "off", "FALSE", "OR", "And", "AND", "Or", "oR", "aNd", "nO", "ors", "andy", "not", "(0)", "(no)", "()", "(false)", "f(x)", "(draft", "x)", "a(", ")b"];
         out.push(r.pick(&pool).to_string());
     }
 }
